@@ -186,7 +186,13 @@ func parCoq(s string) string {
 
 func caseCoq(c *Case, all []Obs) string {
 	f := &flat{}
-	f.add(c.G)
+	top := c.G
+	if c.RtMax > 0 { // the call option replaces the compiled step limit of the top graph (and of no other)
+		g := *c.G
+		g.Max = c.RtMax
+		top = &g
+	}
+	f.add(top)
 	inErr := "None"
 	if c.InErr != nil && (c.Par == "collect" || c.Par == "transform") {
 		inErr = lib.CoqSome(c.InErr.coq())
